@@ -98,6 +98,9 @@ func gid() int64 {
 	return v
 }
 
+// Gid returns the id of the calling goroutine.
+func Gid() int64 { return gid() }
+
 // Name registers the calling goroutine under a thread name (harness threads do this).
 func Name(n string) { mu.Lock(); names[gid()] = n; mu.Unlock() }
 
